@@ -15,7 +15,9 @@
 (*                comparison tree over powers of ten, negation into the unsigned type, a       *)
 (*                result string/buffer of exactly that length written back to front, grouped   *)
 (*                length n + (n-1) div 3, NUL behind the text, '-' in front.                   *)
-(* Every call is independent of every other call: the only state is the last argument.         *)
+(* Every call is independent of every other call: the only state is the last argument and its  *)
+(* numeral (kept so that consecutive calls with the same argument - the drivers push every     *)
+(* value through all function variants - need not derive it again).                            *)
 (*                                                                                             *)
 (* Note on style: TLC evaluates operator arguments and LET definitions by name (again at every *)
 (* use) and keeps function constructors unevaluated.  Let1 binds through a bounded quantifier  *)
@@ -23,8 +25,9 @@
 (* identity semantically.  Without them the nested folds below cost exponential time.          *)
 EXTENDS Integers, Sequences, TLC
 
-VARIABLE cur     \* argument of the last conversion: [w |-> width, sg |-> signed type?, bits |-> bit list]; w = 0: none yet
-vars == <<cur>>
+VARIABLES cur,   \* argument of the last conversion: [w |-> width, sg |-> signed type?, bits |-> bit list]; w = 0: none yet
+          num    \* its decimal numeral = Digits(cur.bits, cur.sg);  <<>>: none yet
+vars == <<cur, num>>
 
 Widths     == {8, 16, 32, 64}
 GroupChars == {39, 44, 46, 32, 95}          \* ' , . blank _   (39 is the documented default)
@@ -106,7 +109,10 @@ Digits(bits, sg) == SignText(bits, sg) \o DigitText(Magnitude(bits, sg))
 GroupDigits(t0, g) == Let1(t0, LAMBDA t :
                          FoldN(LAMBDA acc, i : acc \o (IF i > 1 /\ (Len(t) - i + 1) % 3 = 0 THEN <<g>> ELSE <<>>) \o <<t[i]>>,
                                <<>>, Len(t)))
-Grouped(bits, sg, g) == SignText(bits, sg) \o GroupDigits(DigitText(Magnitude(bits, sg)), g)
+\* the same for a numeral with optional sign: the sign stays in front, outside the grouping
+GroupText(p0, g) == Let1(p0, LAMBDA p : IF p[1] = MinusCh THEN <<MinusCh>> \o GroupDigits(SubSeq(p, 2, Len(p)), g)
+                                        ELSE GroupDigits(p, g))
+Grouped(bits, sg, g) == GroupText(Digits(bits, sg), g)
 
 IsGroupedFn(fn) == fn \in {"gstr", "gbuf", "gstream"}
 Expected(bits, sg, fn, g) == IF IsGroupedFn(fn) THEN Grouped(bits, sg, g) ELSE Digits(bits, sg)
@@ -179,14 +185,24 @@ StrLen(v) == CASE Len(v) = 8 -> StrLen8(v) [] Len(v) = 16 -> StrLen16(v) [] Len(
 Poke(m, p, c) == IF p \in DOMAIN m.mem THEN [m EXCEPT !.mem[p] = c] ELSE [m EXCEPT !.ok = FALSE]
 
 \* "For the pre-determined number of characters: assign value % 10 to the current position, move to the previous
-\* position, divide the value by 10";  grouped: a group character goes in front of every fourth digit.
-\* st = [mem, ok, p (current position), v (remaining value), nd (digits in the current group)]
-EmitStep(st0, grouped, g) ==
+\* position, divide the value by 10".  The arithmetic of these n iterations is the same for all function variants:
+\* s = <<digits produced so far (least significant first), remaining value>>
+DivSteps(av, n) == FoldN(LAMBDA s, k : Let1(BDivMod10(s[2]), LAMBDA dm : <<s[1] \o <<dm.r>>, dm.q>>), <<<<>>, av>>, n)
+
+\* what every variant computes first: sign test, negation into the unsigned type, digit count, the digits
+OpCore(bits, sg) ==
+   Let1(sg /\ bits[1] = 1, LAMBDA neg :                                                   \* value < 0
+   Let1(IF neg THEN BNeg(bits) ELSE bits, LAMBDA av :                                     \* const uintNN_t abs_value = -value
+   Let1(StrLen(av), LAMBDA n :                                                            \* result_len
+   Let1(DivSteps(av, n), LAMBDA ds :
+      [zero |-> sg /\ BIsZero(bits), neg |-> neg, n |-> n, dig |-> ds[1], rest |-> ds[2]]))))
+
+\* the stores of the k-th iteration; grouped: a group character goes in front of every fourth digit.
+\* st = [mem, ok, p (current position), nd (digits in the current group)]
+EmitStep(st0, digit, grouped, g) ==
    Let1(st0, LAMBDA st :
-      Let1(BDivMod10(st.v), LAMBDA dm :
-         Let1(IF grouped /\ st.nd = 3 THEN [Poke(st, st.p, g) EXCEPT !.p = st.p - 1, !.nd = 0] ELSE st, LAMBDA s1 :
-            [Poke(s1, s1.p, ZeroCh + dm.r) EXCEPT !.p = s1.p - 1, !.v = dm.q, !.nd = s1.nd + 1])))
-EmitAll(st, n, grouped, g) == FoldN(LAMBDA x, k : EmitStep(x, grouped, g), st, n)
+      Let1(IF grouped /\ st.nd = 3 THEN [Poke(st, st.p, g) EXCEPT !.p = st.p - 1, !.nd = 0] ELSE st, LAMBDA s1 :
+         [Poke(s1, s1.p, ZeroCh + digit) EXCEPT !.p = s1.p - 1, !.nd = s1.nd + 1]))
 
 Area(size, fill) == Strict([i \in 0..(size - 1) |-> fill])
 TextOf(mem, n) == Strict([i \in 1..n |-> mem[i - 1]])
@@ -194,31 +210,33 @@ TextOf(mem, n) == Strict([i \in 1..n |-> mem[i - 1]])
 \* One call.  Result: text (the std::string, or the buffer content in front of the NUL), ret (returned length),
 \* ok (every write inside the string / inside the exactly sized buffer, value used up, write position ends where
 \* the text begins, NUL directly behind the text).
-OpConvert(bits, sg, fn, g) ==
-   IF sg /\ BIsZero(bits) THEN [text |-> <<ZeroCh>>, ret |-> 1, ok |-> TRUE]              \* if (value == 0) return "0"
+OpEmit(c, fn, g) ==
+   IF c.zero THEN [text |-> <<ZeroCh>>, ret |-> 1, ok |-> TRUE]                           \* if (value == 0) return "0"
    ELSE
-   Let1(sg /\ bits[1] = 1, LAMBDA neg :                                                   \* value < 0
-   Let1(IF neg THEN BNeg(bits) ELSE bits, LAMBDA av :                                     \* const uintNN_t abs_value = -value
-   Let1(StrLen(av), LAMBDA n :                                                            \* result_len
       LET grouped == IsGroupedFn(fn)
           tobuf   == fn \in {"buf", "gbuf"}
-          s       == IF neg THEN 1 ELSE 0
-          tl      == (IF grouped THEN n + (n - 1) \div 3 ELSE n) + s                      \* text length
+          s       == IF c.neg THEN 1 ELSE 0
+          tl      == (IF grouped THEN c.n + (c.n - 1) \div 3 ELSE c.n) + s                \* text length
       IN Let1(IF tobuf THEN Poke([mem |-> Area(tl + 1, 90), ok |-> TRUE], tl, 0)          \* caller's buffer; buffer[len] = '\0'
-              ELSE [mem |-> Area(tl, IF neg THEN MinusCh ELSE ZeroCh), ok |-> TRUE],      \* std::string(len, '0' or '-')
+              ELSE [mem |-> Area(tl, IF c.neg THEN MinusCh ELSE ZeroCh), ok |-> TRUE],    \* std::string(len, '0' or '-')
               LAMBDA m1 :
-         Let1(EmitAll([mem |-> m1.mem, ok |-> m1.ok, p |-> tl - 1, v |-> av, nd |-> 0], n, grouped, g), LAMBDA e :
-            Let1(IF tobuf /\ neg THEN Poke(e, 0, MinusCh) ELSE e, LAMBDA m2 :             \* buffer[0] = '-'
+         Let1(FoldN(LAMBDA x, k : EmitStep(x, c.dig[k], grouped, g),
+                    [mem |-> m1.mem, ok |-> m1.ok, p |-> tl - 1, nd |-> 0], c.n), LAMBDA e :
+            Let1(IF tobuf /\ c.neg THEN Poke(e, 0, MinusCh) ELSE e, LAMBDA m2 :           \* buffer[0] = '-'
                [text |-> TextOf(m2.mem, tl), ret |-> tl,
-                ok |-> m2.ok /\ BIsZero(e.v) /\ e.p = s - 1 /\ (tobuf => m2.mem[tl] = 0)]))))))
+                ok |-> m2.ok /\ BIsZero(c.rest) /\ e.p = s - 1 /\ (tobuf => m2.mem[tl] = 0)])))
+OpConvert(bits, sg, fn, g) == OpEmit(OpCore(bits, sg), fn, g)
 
 (*********************************************************************************************)
 (* Actions                                                                                    *)
 (*********************************************************************************************)
-Init == cur = NoValue
+Init == cur = NoValue /\ num = <<>>
 Convert(w, sg, b) == /\ w \in Widths /\ sg \in BOOLEAN /\ IsBits(b, w)
                      /\ cur' = [w |-> w, sg |-> sg, bits |-> b]
-Reset == cur' = NoValue
+                     /\ num' = IF cur = [w |-> w, sg |-> sg, bits |-> b] THEN num ELSE Digits(b, sg)
+Reset == cur' = NoValue /\ num' = <<>>
+\* what a call of variant fn with group character g must deliver for the current argument
+Result(fn, g) == IF IsGroupedFn(fn) THEN GroupText(num, g) ELSE num
 Next == \/ \E w \in Widths, sg \in BOOLEAN : \E b \in [1..w -> {0, 1}] : Convert(w, sg, b)
         \/ Reset
 Spec == Init /\ [][Next]_vars
@@ -227,26 +245,27 @@ Spec == Init /\ [][Next]_vars
 (* Properties (state predicates over the last argument)                                       *)
 (*********************************************************************************************)
 Has == cur.w # 0
-TypeOK == cur = NoValue \/ (cur.w \in Widths /\ cur.sg \in BOOLEAN /\ IsBits(cur.bits, cur.w))
+TypeOK == (cur = NoValue /\ num = <<>>) \/ (cur.w \in Widths /\ cur.sg \in BOOLEAN /\ IsBits(cur.bits, cur.w) /\ Len(num) > 0)
+NumOK == Has => num = Digits(cur.bits, cur.sg)
 
 \* the documented algorithm produces exactly the decimal numeral, for every function variant and group character,
 \* returns its length, and stays inside a string / buffer of exactly text length (+ 1 for the NUL).
 \* (gstream goes through the gstr function, it has no algorithm of its own.)
 OpFns == {"str", "buf", "gstr", "gbuf"}
-OpEqDecl == Has => \A fn \in OpFns : \A g \in (IF IsGroupedFn(fn) THEN GroupChars ELSE {39}) :
-               Let1(OpConvert(cur.bits, cur.sg, fn, g), LAMBDA r :
-                  Let1(Expected(cur.bits, cur.sg, fn, g), LAMBDA t :
-                     r.text = t /\ r.ret = Len(t) /\ r.ok))
+OpEqDecl == Has => Let1(OpCore(cur.bits, cur.sg), LAMBDA c :
+                      \A fn \in OpFns : \A g \in (IF IsGroupedFn(fn) THEN GroupChars ELSE {39}) :
+                         Let1(OpEmit(c, fn, g), LAMBDA r :
+                            Let1(Result(fn, g), LAMBDA t : r.text = t /\ r.ret = Len(t) /\ r.ok)))
 \* well-formed numeral: optional '-', digits, no leading zero, never "-0", at most the type's number of digits
-WellFormed == Has => Let1(Digits(cur.bits, cur.sg), LAMBDA t :
+WellFormed == Has => Let1(num, LAMBDA t :
                         LET s == IF t[1] = MinusCh THEN 1 ELSE 0
                         IN /\ Len(t) > s
                            /\ \A i \in (s+1)..Len(t) : t[i] \in ZeroCh..(ZeroCh + 9)
                            /\ (t[s+1] = ZeroCh => (Len(t) = 1))
                            /\ (s = 1 <=> IsNegative(cur.bits, cur.sg))
                            /\ Len(t) - s <= MaxDigits[cur.w])
-GroupedOK == Has => Let1(Digits(cur.bits, cur.sg), LAMBDA p :
-                       \A g \in GroupChars : GroupShape(Grouped(cur.bits, cur.sg, g), p, g))
+GroupedOK == Has => Let1(num, LAMBDA p :
+                       \A g \in GroupChars : GroupShape(GroupText(p, g), p, g))
 \* converting the text back yields the original value
-RoundTrip == Has => ParseBack(Digits(cur.bits, cur.sg), cur.w) = cur.bits
+RoundTrip == Has => ParseBack(num, cur.w) = cur.bits
 =============================================================================
